@@ -256,6 +256,16 @@ def corpus_descs():
                  cc.param("len", dict(k="lenkey", dop=cc.simple(cc.std(cc.BUINT, 8))), 1),
                  cc.param("blob", dict(k="value", dop=cc.simple(cc.paramlen(cc.BBYTES, "len")), dflt=None), 4)], False,
                 [{"blob": b""}, {"blob": b"xyz"}]))
+    # integers of PARAM-LENGTH-INFO-TYPE whose length is determined by the value, the LENGTH-KEY counting bits
+    # (identical) or bytes (LINEAR x 8)
+    for bt in (cc.BINT, cc.BUINT):
+        for key_compu in (None, cc.linear(0, 8, 1)):
+            vals = [0, 1, 127, 128, 255, 256, 0x1234, 0x7FFF, 0x8000] + ([-1, -2, -128, -129, -0x8000] if bt == cc.BINT else [])
+            out.append(([cc.param("sid", dict(k="coded", dct=cc.std(cc.BUINT, 8), v=0x2E)),
+                         cc.param("len", dict(k="lenkey", dop=cc.simple(cc.std(cc.BUINT, 8), key_compu))),
+                         cc.param("val", dict(k="value", dop=cc.simple(cc.paramlen(bt, "len")), dflt=None)),
+                         cc.param("tail", dict(k="value", dop=u8(), dflt=None))], False,
+                        [{"val": v, "tail": 0xA5} for v in vals]))
     # an end-marker field at the end of the PDU whose marker is wider than what is left behind the last item: the
     # probe for the marker fails there, which ends the field (the items are kept)
     em = dict(k="endmarker", s=cc.struct([cc.param("x", dict(k="value", dop=u8(), dflt=None))]),
